@@ -746,6 +746,8 @@ impl AssetExpr {
         match &self.policy {
             Expression::None => None,
             Expression::Bytes(x) => Some(x.as_slice()),
+            // a policy named through a `policy X = 0x..;` definition
+            Expression::Hash(x) => Some(x.as_slice()),
             _ => None,
         }
     }
